@@ -1613,7 +1613,7 @@ pub fn replay(prop: &str, ctx: &mut Ctx, c: &J) {
     println!("model:          {}", ans[0]);
     if t.panicked {
         ctx.rep.violation("oracle", "panic/replay", &t.tokens.last().cloned().unwrap_or_default(), c.clone());
-    } else if !model::outside_domain(&ans[0]) && !rops::agree(&ans[0], &t) {
+    } else if !model::outside_domain(&ans[0]) && !rops::agree(&ans[0], &t) && !(ops.iter().any(|o| matches!(o, Op::Grow(_))) && rops::agree_modulo_eof(&ans[0], &t, &ops)) {
         ctx.rep.violation("model", &format!("reader-model/{}", prop), &format!("model `{}` vs implementation `{}`", cut(&ans[0]), cut(&t.text())), c.clone());
     }
     if prop == "C13" {
